@@ -64,7 +64,7 @@ var c18IfaceTypes = []reflect.Type{
 // ---- the gval encoding (mirror of Reflect.gval) ----
 
 const (
-	g18Nil = iota
+	g18Nil   = iota
 	g18Iface // an interface-typed slot holding kids[0]
 	g18NilPtr
 	g18StructPtr
@@ -1105,16 +1105,17 @@ func runC18(cfg *Config) *Report {
 				return mf.apply(a)
 			})
 			desc := fmt.Sprintf("Map x=%s f=%s", desc18(x), mf)
-			obsRes, coqRes := "", ""
+			obsRes := ""
 			var gres gv18
 			if pmsg != "" {
-				obsRes, coqRes = "panic: "+pmsg, "MPanic"
+				obsRes = "panic: " + pmsg
+				cf.add("CPanic " + gx.coq())
 			} else {
 				gres = enc18(res)
-				obsRes, coqRes = desc18(res), "(MRet "+gres.coq()+")"
+				obsRes = desc18(res)
+				cf.add(fmt.Sprintf("CMap %s %s %s %s", gx.coq(), mf.coq(), gres.coq(), coqGvList18(log)))
 			}
 			obs := fmt.Sprintf("%s calls=%s", obsRes, gvList18(log))
-			cf.add(fmt.Sprintf("CMap %s %s %s %s", gx.coq(), mf.coq(), coqRes, coqGvList18(log)))
 			rep.CaseDesc = append(rep.CaseDesc, desc)
 			rep.CaseObs = append(rep.CaseObs, obs)
 			rep.hist("Map/" + shape)
@@ -1126,53 +1127,62 @@ func runC18(cfg *Config) *Report {
 			if !enc18(x).eq(gx) || identity18(x) != idx {
 				rep.violate(i, "map-argument-modified", desc, "argument after the call: "+desc18(x))
 			}
-			outs := make([]gv18, len(kids))
-			inDomain := mf.kind <= 3 // type-preserving functions of the family
-			for j, k := range kids {
-				outs[j] = enc18(mf.apply(k))
-				if outs[j].tag == g18Nil && kenc[j].tag != g18Nil {
-					inDomain = false // f turned a value into the nil interface: not "mapping back to the same type"
-				}
-			}
 			if pmsg != "" {
-				if inDomain {
-					kind := "map-panics"
-					if mf.kind <= 1 {
-						kind = "map-id-panics"
-					}
-					rep.violate(i, kind, desc, obs)
+				kind := "map-panics"
+				if mf.kind <= 1 {
+					kind = "map-id-panics"
 				}
+				rep.violate(i, kind, desc, obs)
 				break
 			}
-			if inDomain {
-				// exactly one call per field / element / map value, in index order for structs and slices
-				okCalls := sameList18(log, kenc)
-				if tag == 3 {
-					okCalls = sameMultiset18(log, kenc)
-				}
-				if !okCalls {
-					rep.violate(i, "map-calls", desc, fmt.Sprintf("expected one call per child %s, observed %s", gvList18(kenc), gvList18(log)))
-				}
-				// the result is the argument with every child replaced by its image; nil stays nil, empty stays empty
-				want := gx
-				if tag != 0 {
-					want.kids = outs
-				}
-				if mf.kind >= 2 {
-					want.isnil = gres.isnil // the property speaks about nil-ness for the identity function only
-				}
-				if !gres.eq(want) {
-					kind := "map-result-differs"
-					if mf.kind <= 1 {
-						kind = "map-id-not-deepequal"
+			// a nil slice / nil map has no children for Map: it comes back as it is and nothing is called
+			nilContainer := (tag == 2 || tag == 3) && reflect.ValueOf(x).IsNil()
+			wantCalls := kenc
+			if nilContainer {
+				wantCalls = nil
+			}
+			// exactly one call per field / element / map value, in index order for structs and slices
+			okCalls := sameList18(log, wantCalls)
+			if tag == 3 {
+				okCalls = sameMultiset18(log, wantCalls)
+			}
+			if !okCalls {
+				rep.violate(i, "map-calls", desc, fmt.Sprintf("expected one call per child %s, observed %s", gvList18(wantCalls), gvList18(log)))
+			}
+			// the result is the argument with every child replaced by its image (an untyped nil image becomes the zero
+			// value of the slot's type, no key is lost); nil stays nil, empty stays empty
+			want := gx
+			if tag != 0 && !nilContainer {
+				want.kids = make([]gv18, len(kids))
+				tx := reflect.TypeOf(x)
+				for j, k := range kids {
+					st := tx.Elem() // element type of the slice / map
+					if tag == 1 {
+						st = tx.Elem().Field(j).Type
 					}
-					rep.violate(i, kind, desc, fmt.Sprintf("expected %s, observed %s", want.String(), obsRes))
-				} else if mf.kind <= 1 && !reflect.DeepEqual(res, x) {
-					rep.violate(i, "map-id-not-deepequal", desc, fmt.Sprintf("reflect.DeepEqual(Map(x, id), x) = false; observed %s", obsRes))
+					out := enc18(mf.apply(k))
+					switch {
+					case out.tag == g18Nil:
+						want.kids[j] = encV18(reflect.Zero(st))
+					case st.Kind() == reflect.Interface:
+						want.kids[j] = gv18{tag: g18Iface, kids: []gv18{out}}
+					default:
+						want.kids[j] = out
+					}
 				}
 			}
-			// fresh container: a different object, and writing to it does not reach the argument
-			if tag != 0 {
+			if !gres.eq(want) {
+				kind := "map-result-differs"
+				if mf.kind <= 1 {
+					kind = "map-id-not-deepequal"
+				}
+				rep.violate(i, kind, desc, fmt.Sprintf("expected %s, observed %s", want.String(), obsRes))
+			} else if mf.kind <= 1 && !reflect.DeepEqual(res, x) {
+				rep.violate(i, "map-id-not-deepequal", desc, fmt.Sprintf("reflect.DeepEqual(Map(x, id), x) = false; observed %s", obsRes))
+			}
+			// fresh container, for NON-NIL containers only (a nil slice / nil map is returned as it is, nothing was
+			// copied): a different object, and writing to it does not reach the argument
+			if tag != 0 && !nilContainer {
 				vr, vx := reflect.ValueOf(res), reflect.ValueOf(x)
 				if res == nil || vr.Type() != vx.Type() {
 					rep.violate(i, "map-result-type", desc, obs)
